@@ -18,9 +18,10 @@ class AV:
     cls   : possible (super)classes of an object value (names of package classes)
     const : python constant (bool/None/str/int) when statically known
     """
-    __slots__ = ("kinds", "orig", "elem", "items", "refs", "cls", "const", "_h")
+    __slots__ = ("kinds", "orig", "elem", "items", "refs", "cls", "const", "msh", "ident", "_h")
 
-    def __init__(self, kinds=(), orig=(), elem=None, items=None, refs=(), cls=(), const=NOCONST):
+    def __init__(self, kinds=(), orig=(), elem=None, items=None, refs=(), cls=(), const=NOCONST,
+                 msh=None, ident=None):
         kinds = frozenset(kinds)
         orig = frozenset(orig)
         if kinds and kinds <= IMMUTABLE:
@@ -32,12 +33,26 @@ class AV:
         self.refs = frozenset(refs)
         self.cls = frozenset(cls)
         self.const = const
+        # masked arrays: msh = provenance roots the MASK buffer may share memory with
+        #   None       -> not tracked separately: the mask shares whatever `orig` says
+        #   frozenset  -> exactly these (empty after an effective x.unshare_mask())
+        # ident: False only if the value is known to be a NEW array object (np.ma.array(...),
+        #   slicing, reshape ...); None/True = may be the very object the origin refers to
+        #   (then unshare_mask() gives no guarantee)
+        self.msh = frozenset(msh) if msh is not None else None
+        self.ident = ident
         self._h = None
 
     def key(self):
         return (self.kinds, self.orig, self.elem.key() if self.elem is not None else None,
                 tuple(i.key() for i in self.items) if self.items is not None else None,
-                self.refs, self.cls, self.const if _hashable(self.const) else NOCONST)
+                self.refs, self.cls, self.const if _hashable(self.const) else NOCONST,
+                self.msh, self.ident)
+
+    @property
+    def mask_orig(self):
+        """provenance roots the mask buffer may share memory with"""
+        return self.orig if self.msh is None else self.msh
 
     def __eq__(self, other):
         return isinstance(other, AV) and self.key() == other.key()
@@ -64,7 +79,7 @@ class AV:
     # ------------------------------------------------------------------
     def replace(self, **kw):
         d = dict(kinds=self.kinds, orig=self.orig, elem=self.elem, items=self.items,
-                 refs=self.refs, cls=self.cls, const=self.const)
+                 refs=self.refs, cls=self.cls, const=self.const, msh=self.msh, ident=self.ident)
         d.update(kw)
         return AV(**d)
 
@@ -150,7 +165,13 @@ def join(a, b, depth=0):
             elem = join(ea, eb, depth + 1) if depth < 4 else (ea or eb)
     c = a.const if (a.const is not NOCONST and _hashable(a.const) and b.const is not NOCONST
                     and a.const == b.const and type(a.const) is type(b.const)) else NOCONST
-    return AV(a.kinds | b.kinds, a.orig | b.orig, elem, items, a.refs | b.refs, a.cls | b.cls, c)
+    # msh None is equivalent to msh == orig
+    msh = None if (a.msh is None and b.msh is None) else (a.mask_orig | b.mask_orig)
+    ident = False if (a.ident is False and b.ident is False) else (
+        a.ident if not (b.kinds & {"ma", "nd", "any"}) else
+        b.ident if not (a.kinds & {"ma", "nd", "any"}) else None)
+    return AV(a.kinds | b.kinds, a.orig | b.orig, elem, items, a.refs | b.refs, a.cls | b.cls, c,
+              msh, ident)
 
 
 def _elem_for_join(a):
@@ -209,7 +230,12 @@ def map_orig(av, fn, _d=0):
     elem = map_orig(av.elem, fn, _d + 1) if (av.elem is not None and _d < 5) else av.elem
     items = tuple(map_orig(i, fn, _d + 1) for i in av.items) if (av.items is not None and _d < 5) \
         else av.items
-    return AV(av.kinds, no, elem, items, av.refs, av.cls, av.const)
+    nm = None
+    if av.msh is not None:
+        nm = set()
+        for o in av.msh:
+            nm.update(fn(o))
+    return AV(av.kinds, no, elem, items, av.refs, av.cls, av.const, nm, av.ident)
 
 
 # ---------------------------------------------------------------------------------------------
